@@ -290,17 +290,17 @@ theorem allocate_inv2 {c : Conf} {s : State} {mac : Bytes} (h : Inv2 c s)
 
 theorem commitLease_inv2 {O : Oracle} {c : Conf} {s : State} {l : Lease} (hostname : Bytes) (h : Inv2 c s)
     (hl : l ∈ s.leases)
-    (hfree : commitName O l hostname s = [] ∨ s.hosts (commitName O l hostname s) = none ∨
-      s.hosts (commitName O l hostname s) = some l.id) : Inv2 c (commitLease O c l hostname s) := by
+    (hfree : commitName O c l hostname s = [] ∨ s.hosts (commitName O c l hostname s) = none ∨
+      s.hosts (commitName O c l hostname s) = some l.id) : Inv2 c (commitLease O c l hostname s) := by
   unfold commitLease
-  have hi := Inv2_rename (commitName O l hostname s) (s.now + c.leaseTime) h hl hfree
+  have hi := Inv2_rename (commitName O c l hostname s) (s.now + c.leaseTime) h hl hfree
   obtain ⟨A, B, hs⟩ := List.append_of_mem hl
-  have hle := (renameLease_frame (s := s) l (commitName O l hostname s) (s.now + c.leaseTime)).1
+  have hle := (renameLease_frame (s := s) l (commitName O c l hostname s) (s.now + c.leaseTime)).1
   rw [hs, mapId_split (by rw [← hs]; exact h.1.idNodup)] at hle
-  have hmem : ({ l with host := commitName O l hostname s, exp := s.now + c.leaseTime } : Lease) ∈
-      (renameLease l (commitName O l hostname s) (s.now + c.leaseTime) s).leases := by
+  have hmem : ({ l with host := commitName O c l hostname s, exp := s.now + c.leaseTime } : Lease) ∈
+      (renameLease l (commitName O c l hostname s) (s.now + c.leaseTime) s).leases := by
     rw [hle]; exact mem_middle.2 (.inl rfl)
-  exact Inv2_setIP_same hi (y := { l with host := commitName O l hostname s, exp := s.now + c.leaseTime }) hmem
+  exact Inv2_setIP_same hi (y := { l with host := commitName O c l hostname s, exp := s.now + c.leaseTime }) hmem
 
 /-- The R3 pattern: a REQUEST commits a lease that has no name yet, the name
 the client asks for (or the generated one, for an empty request) is taken, and
@@ -325,7 +325,7 @@ theorem handleDiscover_inv2 {c : Conf} {s : State} {mac : Bytes} (h : Inv2 c s) 
 
 theorem handleRequest_inv2 {O : Oracle} {c : Conf} {s : State} {mac : Bytes} {sid : Nat} {rp : Bool} {rip ci : Nat}
     {hn : Bytes} (h : Inv2 c s)
-    (hno : ¬ ∃ l, (handleByRequestType c mac sid rp rip ci s).1 = some l ∧ l.static = false ∧ l.host = [] ∧
+    (hno : c.fixR3 = true ∨ ¬ ∃ l, (handleByRequestType c mac sid rp rip ci s).1 = some l ∧ l.static = false ∧ l.host = [] ∧
       (s.hosts (validHost O hn l.ip)).isSome = true ∧ ∃ id, s.hosts (genHost l.ip) = some id ∧ id ≠ l.id) :
     Inv2 c (handleRequest O c mac sid rp rip ci hn s).1 := by
   unfold handleRequest
@@ -347,11 +347,23 @@ theorem handleRequest_inv2 {O : Oracle} {c : Conf} {s : State} {mac : Bytes} {si
         by_cases hlh : l.host = []
         · rw [if_pos hlh]
           cases hg : s.hosts (genHost l.ip) with
-          | none => exact .inr (.inl rfl)
+          | none =>
+            simp only [Bool.and_false, Bool.false_eq_true, if_false]
+            exact .inr (.inl hg)
           | some id =>
+            simp only []
             by_cases hid : id = l.id
-            · exact .inr (.inr (by rw [hid]))
-            · exact absurd ⟨l, rfl, hd, hlh, htaken, id, hg, hid⟩ hno
+            · have : (id != l.id) = false := by simp [hid]
+              simp only [this, Bool.and_false, Bool.false_eq_true, if_false]
+              exact .inr (.inr (by rw [hg, hid]))
+            · have : (id != l.id) = true := by simpa using hid
+              cases hfx : c.fixR3
+              · simp only [this, Bool.false_and, Bool.false_eq_true, if_false]
+                rcases hno with hno | hno
+                · rw [hfx] at hno; cases hno
+                · exact absurd ⟨l, rfl, hd, hlh, htaken, id, hg, hid⟩ hno
+              · simp only [this, Bool.and_self, if_true]
+                exact .inl trivial
         · rw [if_neg hlh]
           exact .inr (.inr (h.2 l hl hlh))
       · rw [if_neg htaken]
@@ -508,10 +520,9 @@ theorem resetLoop_inv2 (O : Oracle) (c : Conf) : ∀ (d : List DLease) (s : Stat
     intro s h hip hmac hpool hfresh
     rw [List.map_cons, List.nodup_cons] at hip hmac
     unfold resetLoop
-    simp only []
     have hrest : ∀ z ∈ rest, ∀ y ∈ s.fresh.2.leases, y.ip ≠ z.ip ∧ y.mac ≠ z.mac :=
       fun z hz y hy => hfresh z (List.mem_cons_of_mem _ hz) y hy
-    cases hadd : addLease c { id := s.nextId, mac := x.mac, ip := x.ip, host := (if x.static = true then x.host else validHost O x.host x.ip), static := x.static, exp := x.exp } s.fresh.2 with
+    cases hadd : addLease c (loadLease O c x s.nextId) s.fresh.2 with
     | error e =>
       exact ih _ (Inv2_fresh h) hip.2 hmac.2 (fun z hz => hpool z (List.mem_cons_of_mem _ hz)) hrest
     | ok s' =>
@@ -519,7 +530,7 @@ theorem resetLoop_inv2 (O : Oracle) (c : Conf) : ∀ (d : List DLease) (s : Stat
         refine Inv2_add (Inv2_fresh h) hadd ?_ ?_ ?_ ?_
         · intro y hy; exact (hfresh x List.mem_cons_self y hy).1
         · intro y hy; exact (hfresh x List.mem_cons_self y hy).2
-        · simp [State.fresh]
+        · simp [State.fresh, loadLease]
         · intro y hy
           have : y.id < s.nextId := h.1.idLt y hy
           show y.id ≠ s.nextId
@@ -553,7 +564,7 @@ theorem restart_inv2 {O : Oracle} {c : Conf} {s : State} (h : Inv c s) : Inv2 c 
 
 /-- The hostname index stays complete over every step that is not an instance of R3. -/
 theorem Inv2_step {O : Oracle} {c : Conf} {s : State} {op : Op} (h : Inv2 c s)
-    (hno : ¬ R3at O c s op) : Inv2 c (step O c s op).1 := by
+    (hno : c.fixR3 = true ∨ ¬ R3at O c s op) : Inv2 c (step O c s op).1 := by
   have h0 : Inv2 c { s with stale := [] } := Inv2_congr h rfl rfl rfl rfl rfl rfl
   unfold step
   simp only []
@@ -614,11 +625,12 @@ theorem Inv2_step {O : Oracle} {c : Conf} {s : State} {op : Op} (h : Inv2 c s)
       · next s1 hr => exact Inv2_store (rmLease_inv2 _ _ _ h0 hr)
   | sleep d => exact Inv2_congr h0 rfl rfl rfl rfl rfl rfl
   | restart => exact restart_inv2 h0.1
+  | reorder d => exact ⟨Inv_reorder d h0.1, HC_congr h0.2 (reorderDisk_spec d _).1 (reorderDisk_spec d _).2.2.2.1⟩
 
 /-- No step of the history is an instance of R3. -/
 def NoR3 (O : Oracle) (c : Conf) : State → List Op → Prop
   | _, [] => True
-  | s, op :: rest => ¬ R3at O c s op ∧ NoR3 O c (step O c s op).1 rest
+  | s, op :: rest => (c.fixR3 = true ∨ ¬ R3at O c s op) ∧ NoR3 O c (step O c s op).1 rest
 
 theorem run_inv2 {O : Oracle} {c : Conf} : ∀ (ops : List Op) (s : State), Inv2 c s →
     NoR3 O c s ops → Inv2 c (run O c s ops) := by
